@@ -76,6 +76,13 @@ def realise(k, op, variant, reg):
         opts.append(('enumeration+both', {'type': 'enumeration', 'bytecode': {'size': cw, 'position': pos, 'value_dict': {'kx': cv, 'ky': 1}},
                                           'argument': dict(_arg_cfg(aw, al, aen), value_dict={'kx': av, 'ky': 2})}, 'kx'))
         opts.append(('indirect_numeric+code', {'type': 'indirect_numeric', 'bytecode': code, 'argument': _arg_cfg(aw, al, aen)}, f'[{num_text(av)}]'))
+        # a numeric enumeration that maps its key to an operand code AND to an argument value
+        opts.append(('numeric_enumeration+both', {'type': 'numeric_enumeration', 'bytecode': {'size': cw, 'position': pos, 'value_dict': {7: cv, 8: (cv + 1) % (1 << cw)}},
+                                                  'argument': dict(_arg_cfg(aw, al, aen), value_dict={7: av, 8: 2})}, '3 + 4'))
+        if av < 0:
+            # a negative offset written as a difference followed by a further term: [r - 3 + 1] is the register plus -2
+            opts.append(('indirect_register+offset(negative, two terms)', {'type': 'indirect_register', 'register': reg, 'bytecode': code, 'offset': _arg_cfg(aw, al, aen)},
+                         f'[{reg} - {1 - av} + 1]'))
         if cw >= 2:
             # the operand code is a COMPOSITE: the register's code bits followed by the index operand's code bits
             half = cw // 2
